@@ -257,7 +257,7 @@ Proof.
   unfold acquire. destruct (negb (is_body_readable e)); [intros H; injection H as <- <-; left; reflexivity|].
   destruct (e_seekable e).
   - destruct (content_length e) as [n|].
-    + destruct ((n <? 0)%Z || (Z.of_nat (length (e_input e)) <=? n)%Z); intros H; injection H as <- <-; left; reflexivity.
+    + destruct (Z.of_nat (length (e_input e)) <? n)%Z; [discriminate|]. intros H; injection H as <- <-; left; reflexivity.
     + intros H; injection H as <- <-; left; reflexivity.
   - destruct (content_length e) as [n|].
     + destruct (n <? 0)%Z; [discriminate|].
@@ -310,9 +310,9 @@ Proof.
   cbn [e_hdrs e_seekable e_input e_term]. rewrite dict_get_set_same, parse_dec_len.
   destruct body as [|c b].
   - reflexivity.
-  - cbn [length]. replace (Z.of_nat (S (length b)) =? 0)%Z with false by (symmetry; apply Z.eqb_neq; lia).
-    cbn [negb]. destruct (Z.ltb_spec (Z.of_nat (S (length b))) 0); [lia|]. cbn [orb].
-    rewrite Z.leb_refl. reflexivity.
+  - cbn [length]. replace (0 <? Z.of_nat (S (length b)))%Z with true by (symmetry; apply Z.ltb_lt; lia).
+    cbn [negb]. rewrite Z.ltb_irrefl. rewrite Nat2Z.id. change (S (length b)) with (length (c :: b)).
+    rewrite firstn_all. reflexivity.
 Qed.
 
 (* ------------------------------------------------------------------ the request after re-parsing *)
@@ -624,11 +624,12 @@ Proof.
   intros e Hc. unfold body_consistent in Hc. unfold acquire, body_of, is_body_readable, content_length, settled.
   destruct (dict_get k_CL (e_hdrs e)) as [v|] eqn:Ev.
   - subst v. rewrite parse_dec_len.
-    destruct (Z.eqb_spec (Z.of_nat (length (e_input e))) 0) as [Hz|Hnz]; cbn [negb].
-    + exists e. rewrite Ev. rewrite (length_zero_nil _ Hz). repeat split; auto.
-    + destruct (Z.ltb_spec (Z.of_nat (length (e_input e))) 0); [lia|]. cbn [orb].
+    destruct (Z.ltb_spec 0 (Z.of_nat (length (e_input e)))) as [Hpos|Hz]; cbn [negb].
+    2:{ exists e. rewrite Ev. assert (Hnil : e_input e = []) by (apply length_zero_nil; lia).
+        rewrite Hnil. repeat split; auto. }
+    + destruct (Z.ltb_spec (Z.of_nat (length (e_input e))) 0); [lia|].
       destruct (e_seekable e).
-      * rewrite Z.leb_refl. exists e. rewrite Ev. repeat split; auto.
+      * rewrite Z.ltb_irrefl, Nat2Z.id, firstn_all. exists e. rewrite Ev. repeat split; auto.
       * rewrite Z.ltb_irrefl. rewrite Nat2Z.id, firstn_all.
         exists (set_body e (e_input e)). split; [reflexivity|]. split; [|right; reflexivity].
         unfold set_body. cbn [e_hdrs]. rewrite dict_get_set_same. reflexivity.
